@@ -127,6 +127,10 @@ FrameDomain ==
      payload |-> EncSendData(0, <<ConnAddr(cid), ConnData(sq, msg)>>), cid |-> cid, seq |-> sq, cip |-> msg] :
        x \in CtxPool, cid \in { <<1, 0, 0, 0>>, <<255, 255, 255, 255>> }, sq \in {0, 1, 65535},
        msg \in { EncReq(WCfg, Q("read", 1, "sym", 0, 1, 0, "INT", <<>>, <<>>)) } }
+\* one frame whose length field has its top bit set: a SendRRData carrying a Set Attribute Single of 32760 octets (32784 payload octets)
+BigMsg == EncSetAttrSingle(CIASegs(<<2, 1, 1>>), Rep(7, 32760))
+BigFrames == { [cmd |-> CmdSendRR, sess |-> <<1, 0, 0, 0>>, status |-> 0, ctx |-> <<1, 2, 3, 4, 5, 6, 7, 8>>, options |-> 0, kind |-> "rr",
+                payload |-> EncSendData(5, <<NullAddr, UnconnData(BigMsg)>>), tmo |-> 5, cip |-> BigMsg] }
 \* List Identity / List Services replies: boundary values of every field (state 0 and 255, empty and long names)
 IdentDomain ==
   { [version |-> 1, family |-> 2, port |-> 44818, addr |-> <<10, 161, 1, 5>>, vendor |-> vd, devtype |-> 14, product |-> 54, revision |-> 2836,
@@ -191,7 +195,7 @@ ASSUME CASE Which = "epath"  -> \A p \in Paths : EmitEPath(p)
          [] Which = "typed"  -> (\A x \in TypedDomain : EmitTyped(x)) /\ (\A x \in StructDomain : EmitStruct(x))
          [] Which = "logix"  -> (\A r \in WReqs : EmitLogix(r)) /\ (\A ms \in Bundles : EmitBundleW(ms))
          [] Which = "ucsend" -> \A x \in UCDomain : EmitUC(x)
-         [] Which = "frames" -> \A f \in FrameDomain \cup ListFrames : EmitFrame(f)
+         [] Which = "frames" -> \A f \in FrameDomain \cup ListFrames \cup BigFrames : EmitFrame(f)
          [] Which = "cpf" -> \A x \in CPFDomain : EmitCPF(x)
          [] Which = "fwd" -> \A f \in (IF Deep THEN FODomain ELSE FOSmall) : EmitFO(f)
 
